@@ -22,6 +22,7 @@
 EXTENDS Nodes, TLC, Json, IOUtils
 
 Rec == ndJsonDeserialize(IOEnv.TRACE)
+FSE == INSTANCE FiniteSetsExt
 
 VARIABLES l,      \* next line
           g,      \* current graph (Graph.tla value)
@@ -42,12 +43,8 @@ CfgOK(c) ==
   /\ \A i \in 1..Len(c.edges) : c.edges[i][1] \in SeqRange(c.live) /\ c.edges[i][2] \in SeqRange(c.live)
   /\ Len(c.kinds) = c.slots /\ Len(c.c) = c.slots /\ Len(c.nb) = c.slots /\ Len(c.init) = c.slots
   /\ \A i \in 1..Len(c.live) : c.kinds[c.live[i] + 1] \in {"src", "sum", "pass"}
-  \* a probe is recognised as an input by the stamp in its buffers, so a node that feeds another node needs at
-  \* least one buffer; nodes that feed nobody (meters, taps at the end of a chain) may have none
-  /\ \A i \in 1..Len(c.live) :
-       \/ c.nb[c.live[i] + 1] >= 1
-       \/ /\ c.nb[c.live[i] + 1] = 0
-          /\ \A e \in 1..Len(c.edges) : c.edges[e][1] = c.live[i] => c.edges[e][2] = c.live[i]
+  \* (a node may have no buffers at all -- a meter, a clock: as an input it carries no stamp and is logged as -1)
+  /\ \A i \in 1..Len(c.live) : c.nb[c.live[i] + 1] >= 0
 GraphFrom(c) == GraphOf(c.slots, SeqRange(c.live), c.edges)
 DescFrom(c)  == [v \in 0..(c.slots - 1) |-> [kind |-> c.kinds[v + 1], c |-> c.c[v + 1]]]
 ValFrom(c)   == [v \in 0..(c.slots - 1) |->
@@ -70,14 +67,22 @@ Sim(o, k, s) ==
   IF k > Len(o.order) \/ ~s.ok THEN s
   ELSE LET n   == o.order[k]
            ins == o.src[k]
-           okk == /\ InputsOK(g, n, ins)                            \* one input per incoming edge from a different node,
-                  /\ n \notin SeqRange(ins)                         \* never its own buffers
-                  /\ o.ptr[k] = ins                                 \* each input IS that neighbour's buffer storage
-                  /\ SeenOK(ver, o.order, k, ins, o.cnt[k])         \* ... in its CURRENT state (stamp counter)
+           \* neighbours without buffers cannot be recognised (no stamp, no storage): they appear as -1 and are
+           \* only counted -- one per incoming edge from such a neighbour
+           IsZ(u) == Len(s.val[u]) = 0
+           zedges == FSE!FoldSet(LAMBDA u, acc : acc + g.mult[u][n], 0, {u \in g.live \ {n} : IsZ(u)})
+           okk == /\ \A i \in 1..Len(ins) : ins[i] = -1 \/ (ins[i] \in g.live /\ ins[i] # n /\ ~IsZ(ins[i]))
+                  /\ \A u \in g.live \ {n} : IsZ(u) \/ SeqCount(ins, u) = g.mult[u][n]   \* one input per incoming edge
+                  /\ SeqCount(ins, -1) = zedges                                          \* ... also from buffer-less nodes
+                  /\ Len(o.ptr[k]) = Len(ins) /\ Len(o.cnt[k]) = Len(ins)
                   /\ Len(o.nbs[k]) = Len(ins) /\ Len(o.val[k]) = Len(ins)
-                  /\ \A i \in 1..Len(ins) : /\ o.nbs[k][i] = Len(s.val[ins[i]])        \* all of its buffers
-                                            /\ o.val[k][i] = s.val[ins[i]][1][1]       \* current content
-           r   == NodeStep(desc[n], ver[n], [i \in 1..Len(ins) |-> s.val[ins[i]]], s.val[n], 1)
+                  /\ \A i \in 1..Len(ins) :
+                       IF ins[i] = -1 THEN o.nbs[k][i] = 0
+                       ELSE /\ o.ptr[k][i] = ins[i]                                      \* the input IS that neighbour's storage
+                            /\ o.cnt[k][i] = CurVer(ver, o.order, k, ins[i])             \* ... in its CURRENT state
+                            /\ o.nbs[k][i] = Len(s.val[ins[i]])                          \* all of its buffers
+                            /\ o.val[k][i] = s.val[ins[i]][1][1]                         \* current content
+           r   == NodeStep(desc[n], ver[n], [i \in 1..Len(ins) |-> IF ins[i] = -1 THEN << >> ELSE s.val[ins[i]]], s.val[n], 1)
        IN IF okk THEN Sim(o, k + 1, [ok |-> TRUE, val |-> [s.val EXCEPT ![n] = r.out]])
           ELSE [ok |-> FALSE, val |-> s.val]
 
